@@ -150,6 +150,8 @@ def check(run):
         oldsyn = rng.random() < 0.15
         if oldsyn:
             docgen.oldify(M, rng)
+            if rng.random() < 0.5:
+                docgen.old_params(M, rng)          # grouped parameters the 3.x way: `process T(const lo, hi; int a)` against <parameter>const lo, hi; int a</parameter>
         elif M.inst_layout or rng.random() < 0.2:
             # declarations among the instantiation lines (variables, constants, a typedef, a function): in the XML rendering they stand in the <instantiation> element
             M.inst_decl = rng.choice(['const int NI = 2;\n', 'int vi;\nconst int NI = 3;\n', 'typedef int[0,3] ti_t;\nti_t wi;\n', 'int fi(int a) { return a + 1; }\nconst int NI = fi(1);\n', 'broadcast chan bi;\n'])
